@@ -287,6 +287,61 @@ def run(ctx):
     res.site(key, True, dict(detail, verdict="ok" if ok else "VIOLATION"))
     if not ok:
         res.find(key, fk.loc(), "the set of referenced sequence definitions is no longer computed from exactly the unselected (`!filter(name)`) sequence definitions", "a definition referenced only by a selected (and therefore expanded) sequence is kept, or one referenced by an unselected sequence is dropped")
+    # R4c the referenced set is filled from a transitive reachability query between (unselected source i, candidate j)
+    key = "K8|referenced-set-transitive"
+    REACH = ("petgraph::algo::has_path_connecting", "petgraph::visit::Dfs", "petgraph::visit::Bfs", "petgraph::visit::DfsPostOrder", "petgraph::algo::dijkstra", "petgraph::algo::tarjan_scc", "petgraph::algo::kosaraju_scc", "petgraph::algo::toposort")
+    ins_ = [(bb, t) for bb, t, c in fk.calls() if c and c.get("name") == "insert" and "HashSet" in callee_path(c)]
+    ok = False
+    detail = {"insert_sites": len(ins_)}
+    if len(ins_) == 1:
+        conds = []
+        for sb, tgt in fk.control_deps(ins_[0][0], transitive=False):
+            tt = fk.blocks[sb]["t"]
+            if tt["k"] == "switch":
+                conds.append(fn_expr_operand(fk, tt["d"]))
+        names = sorted({c[1] for e in conds for c in expr_calls(e)})
+        detail["inserted_when"] = [n.rsplit("::", 2)[-2] + "::" + n.rsplit("::", 1)[-1] if n.count("::") > 1 else n for n in names]
+        ok = any(any(n.startswith(r) for r in REACH) for n in names) and not any(n.endswith("contains_edge") or n.endswith("find_edge") for n in names)
+    res.site(key, True, dict(detail, verdict="ok" if ok else "VIOLATION"))
+    if not ok:
+        res.find(key, fk.loc(), "a sequence definition is recorded as referenced under a condition that is not a transitive reachability query (%s): definitions reachable only through an intermediate sequence are dropped" % detail.get("inserted_when"),
+                 "outer -> middle -> inner with only `outer` unselected: `inner` is dropped although the kept `middle` still invokes it")
+    # R1b errors are raised only for selected invocations: every Err construction in gate_sequence_from_instruction is
+    #     control dependent on the filter call having returned true
+    key = "K7|errors-only-when-selected"
+    bad = []
+    nerr = 0
+    for b2, s in aggregates(gsf):
+        if s["rv"]["a"]["path"].endswith(ERR):
+            nerr += 1
+            sel = False
+            for sb, tgt in gsf.control_deps(b2):
+                tt = gsf.blocks[sb]["t"]
+                if tt["k"] == "switch":
+                    e = fn_expr_operand(gsf, tt["d"])
+                    if e[0] in ("call", "callv") and (e[0] == "callv" or e[1].startswith("std::ops::Fn")):
+                        taken = [int(v) for v, x in tt["ts"] if x == tgt]
+                        sel = (taken != [0]) if taken else True
+            if not sel:
+                bad.append(s["rv"]["a"]["variant"])
+    # the `?` on ExpansionStack::check likewise
+    for b2, t2, c2 in gsf.calls():
+        if c2 and callee_path(c2).endswith("ExpansionStack::check"):
+            nerr += 1
+            sel = False
+            for sb, tgt in gsf.control_deps(b2):
+                tt = gsf.blocks[sb]["t"]
+                if tt["k"] == "switch":
+                    e = fn_expr_operand(gsf, tt["d"])
+                    if e[0] in ("call", "callv") and (e[0] == "callv" or e[1].startswith("std::ops::Fn")):
+                        taken = [int(v) for v, x in tt["ts"] if x == tgt]
+                        sel = (taken != [0]) if taken else True
+            if not sel:
+                bad.append("CyclicSequenceGateDefinition")
+    ok = nerr >= 3 and not bad
+    res.site(key, True, {"error_sites": nerr, "raised_without_selection": bad, "verdict": "ok" if ok else "VIOLATION"})
+    if not ok:
+        res.find(key, gsf.loc(), "gate_sequence_from_instruction reports %s for invocations the filter did not select; unselected invocations must be left unchanged" % (bad or "errors"), "`DAGGER native 0` with the sequence `native` not selected: the whole expansion fails instead of leaving the instruction alone")
     # R5 ExpansionStack::check: Err(CyclicSequenceGateDefinition) exactly when the stack contains the name
     key = "K7|cycle-check-decision"
     chk = [f for f in db.fns if f.path.endswith("ExpansionStack::check")]
